@@ -553,6 +553,13 @@ static void case_rt_parsed(vh_rng_t *rng)
     vh_count(ctx.hazard[0] == 'e' ? "rt_hazard_escdot" : "rt_hazard_name_over_255");
   }
   th = rec_typehash(rec, &nrr);
+  if (vh_chance(rng, 1, 5)) {
+    /* the record as the query cache hands it out: parsed, with the time it spent in the cache set as the
+     * amount every TTL getter - and therefore every serialisation - takes off */
+    static const unsigned int ages[] = { 1, 2, 9, 60, 299, 3600, 86400, 0x7fffffff };
+    ares_dns_record_ttl_decrement(rec, vh_chance(rng, 1, 2) ? ages[vh_below(rng, 8)] : 1 + vh_below(rng, 700));
+    vh_count("rt_parsed_with_cache_age");
+  }
   rt_check(&ctx, rec, rng);
   rt_fingerprint(&ctx, th, nrr);
   if (!ctx.wrote) {
